@@ -76,6 +76,91 @@ SpentOnlyWithUnlock(s, t) == \A a \in DOMAIN s.ent.locked :
 C05Step(s, t, ev) == LockedDropsOnlyByFeeTx(s, t, ev) /\ (ev.a # "BeginBlock" => SpentOnlyWithUnlock(s, t))
 
 ------------------------------------------------------------------------------
+(* C07 / C08 / C09 on the registries *)
+ChCommon(s, t, k) == 1..Min(Len(s[k].ch), Len(t[k].ch))
+RecByKey(recs, h) == LET i == CHOOSE j \in DOMAIN recs : recs[j].h = h IN recs[i]
+\* no later transaction alters or replaces a record that is still in state
+NoRewrite(s, t) == \A k \in {"wrk", "bcn"} : \A i \in ChCommon(s, t, k) :
+   \A h \in Keys(s[k].ch[i].recs) \cap Keys(t[k].ch[i].recs) :
+      RecByKey(s[k].ch[i].recs, h) = RecByKey(t[k].ch[i].recs, h)
+\* record messages the transaction carries for registration id of module k (through wrappers)
+RecMsgsFor(ev, k, id) ==
+  IF ev.a # "DeliverTx" THEN 0
+  ELSE Len(SelectSeq(Flatten(ev.msgs), LAMBDA m : m.t = (IF k = "wrk" THEN "WRec" ELSE "BRec") /\ m.id = id))
+\* records only ever disappear from the low end and appear at the high end; the oldest are pruned
+\* one per arriving record and only when the registration is full
+AppendOnly(s, t, ev) == \A k \in {"wrk", "bcn"} : \A i \in ChCommon(s, t, k) :
+   LET a == s[k].ch[i]  b == t[k].ch[i]
+       added == Keys(b.recs) \ Keys(a.recs)
+       removed == Keys(a.recs) \ Keys(b.recs)
+   IN /\ \A h \in added : h > a.last
+      /\ \A h \in removed : \A g \in Keys(b.recs) : h < g
+      /\ b.last >= a.last
+      /\ (k = "bcn" => Cardinality(added) <= b.last - a.last)
+      /\ Cardinality(added) <= RecMsgsFor(ev, k, a.id)
+      /\ Cardinality(removed) <= RecMsgsFor(ev, k, a.id)
+      /\ (removed # {} => Len(a.recs) + RecMsgsFor(ev, k, a.id) > a.limit)
+C07Step(s, t, ev) == NoRewrite(s, t) /\ AppendOnly(s, t, ev)
+C07Hist(s) == HistoryOk(s, "wrk") /\ HistoryOk(s, "bcn")
+
+\* storage purchases the transaction carries for registration id of module k (through wrappers)
+BuysFor(ev, k, id, owner) ==
+  IF ev.a # "DeliverTx" THEN 0
+  ELSE LET ops == SelectSeq(Flatten(ev.msgs), LAMBDA m : m.t = (IF k = "wrk" THEN "WBuy" ELSE "BBuy") /\ m.id = id /\ m.owner = owner)
+       IN SeqSum([j \in DOMAIN ops |-> ops[j].n])
+LimitChangesOnlyByOwnerPurchase(s, t, ev) == \A k \in {"wrk", "bcn"} : \A i \in ChCommon(s, t, k) :
+   LET a == s[k].ch[i]  b == t[k].ch[i] IN
+   a.limit # b.limit => /\ b.limit > a.limit
+                        /\ b.limit - a.limit = BuysFor(ev, k, a.id, a.owner)
+                        /\ b.limit <= s[k].p.max
+LimitStartsAtDefault(s, t) == \A k \in {"wrk", "bcn"} :
+   \A i \in (DOMAIN t[k].ch) \ (DOMAIN s[k].ch) : t[k].ch[i].limit = s[k].p.def /\ t[k].ch[i].recs = <<>>
+C08State(s) == RegistryOk(s, "wrk") /\ RegistryOk(s, "bcn")
+C08Step(s, t, ev) == LimitChangesOnlyByOwnerPurchase(s, t, ev) /\ LimitStartsAtDefault(s, t)
+
+MetaFields == {"id", "owner", "moniker", "name", "reg"}
+MetaImmutable(s, t) == \A k \in {"wrk", "bcn"} :
+   /\ Len(t[k].ch) >= Len(s[k].ch)
+   /\ \A i \in ChCommon(s, t, k) : \A f \in MetaFields \cup (IF k = "wrk" THEN {"genesis", "type"} ELSE {}) :
+         s[k].ch[i][f] = t[k].ch[i][f]
+\* a registration changes only if the transaction carries a message of its owner aimed at it
+TouchedBy(ev, k, id, owner) ==
+  ev.a = "DeliverTx" /\ \E j \in DOMAIN Flatten(ev.msgs) :
+     LET m == Flatten(ev.msgs)[j] IN IsRegMsg(k, m) /\ m.t \notin {"WReg", "BReg"} /\ m.id = id /\ m.owner = owner
+OnlyOwnerWrites(s, t, ev) == \A k \in {"wrk", "bcn"} : \A i \in ChCommon(s, t, k) :
+   LET a == s[k].ch[i]  b == t[k].ch[i] IN
+   (a.recs # b.recs \/ a.limit # b.limit \/ a.last # b.last \/ a.num # b.num \/ a.low # b.low) => TouchedBy(ev, k, a.id, a.owner)
+NewRegsAreSequential(s, t, ev) == \A k \in {"wrk", "bcn"} :
+   \A i \in (DOMAIN t[k].ch) \ (DOMAIN s[k].ch) : t[k].ch[i].id = s[k].next + (i - Len(s[k].ch) - 1)
+C09Step(s, t, ev) == MetaImmutable(s, t) /\ OnlyOwnerWrites(s, t, ev) /\ NewRegsAreSequential(s, t, ev)
+
+------------------------------------------------------------------------------
+(* C10 / C11 / C12 on streams *)
+HasStreamMsg(ev) == ev.a = "DeliverTx" /\ \E j \in DOMAIN Flatten(ev.msgs) :
+                      Flatten(ev.msgs)[j].t \in {"SCreate", "SClaim", "STopUp", "SRate", "SCancel"}
+EscrowOnlyByStreamOps(s, t, ev) == \A d \in Denoms : t.bal["stream"][d] # s.bal["stream"][d] => HasStreamMsg(ev)
+C10State(s) == EscrowBacked(s)
+C10Step(s, t, ev) == EscrowOnlyByStreamOps(s, t, ev)
+C11State(s) == Sustained(s)
+
+------------------------------------------------------------------------------
+(* C13 *)
+\* a transaction not signed by the parties its messages belong to changes nothing at all
+ModState(s) == <<s.ent.po, s.ent.rq, s.ent.aq, s.ent.wl, s.ent.locked, s.ent.spent, s.ent.p, s.wrk.p, s.wrk.ch, s.bcn.p, s.bcn.ch, s.str.p, s.str.s, s.bal, s.supply>>
+WronglySigned(ev) == ev.a = "DeliverTx" /\ ~SigsOk(TxOf(ev))
+UnsignedChangesNothing(s, t, ev) == WronglySigned(ev) => ModState(s) = ModState(t)
+C13Step(s, t, ev) == UnsignedChangesNothing(s, t, ev)
+
+------------------------------------------------------------------------------
 (* C14 *)
 NotHalted(s) == ~s.halted
+\* what a failed transaction may still change: fee, sequence, eFUND unlock (the pre-execution stage)
+MsgState(s) == <<s.ent.po, s.ent.rq, s.ent.aq, s.ent.wl, s.ent.next, s.ent.p, s.wrk.p, s.wrk.ch, s.wrk.next,
+                 s.bcn.p, s.bcn.ch, s.bcn.next, s.str.p, s.str.s, s.supply, s.bal["stream"]>>
+FailedTxKeepsState(s, t, ev, ok) == (ev.a = "DeliverTx" /\ ~ok) => MsgState(s) = MsgState(t)
+QueriesAndChecksReadOnly(s, t, ev) == ev.a \in {"CheckTx", "Commit", "Restart"} => ModState(s) = ModState(t)
+
+------------------------------------------------------------------------------
+(* C16 *)
+StoredParamsValid(s) == /\ EntParamsValid(s, s.ent.p) /\ RegParamsValid(s.wrk.p) /\ RegParamsValid(s.bcn.p) /\ StrParamsValid(s.str.p)
 =============================================================================
